@@ -160,6 +160,7 @@ func RunBehaviour(b *Behaviour, ks *sut.KeySet, workRoot string) (res BehResult)
 	}
 	defer inst.Close()
 	w := NewWorld(inst, b.Conc)
+	defer w.CloseHandles()
 	add := func(prop string, step int, call Call, f string, a ...interface{}) {
 		if !has(b.Oracles, prop) {
 			return
